@@ -1,5 +1,107 @@
-import TcheranVerif.Model.Search
+import TcheranVerif.Model.Eval
+import TcheranVerif.Model.Rules
+/-!
+# C16 — evaluation: proper blend, packed representation, table-level colour symmetry
+
+* `blend_between` / `blend_total` — for every representable (mg, eg) pair and every phase ≥ 0 the
+  blend is defined (no `i16::try_from` panic) and lies between the two assessments; the weights are
+  `min phase 24` and `24 - min phase 24`, both non-negative (`weights_nonneg`).
+* `midgame_pack` / `endgame_pack` — the packed `i32` representation returns what was packed.
+* `pst_mirror`, `passed_pst_mirror`, `passed_mask_mirror` — the colour symmetry of every table the
+  evaluation reads, decided by the kernel on the tables regenerated from `/repo`
+  (6 × 64 + 64 + 64 entries). `eval_mirror` for whole positions and `eval_bounded` are carried by
+  the correspondence/oracle stream only (stated below as `…_full : Prop`, not proved: partial).
+-/
 namespace Tcheran.Props.C16
-theorem placeholder : True := trivial
+open Tcheran Tcheran.Eval
+
+theorem phaseCountMax_eq : Gen.phaseCountMax = 24 := by decide
+
+theorem midgame_pack (mg eg : Int) (h1 : -32768 ≤ mg) (h2 : mg ≤ 32767) : midgame (pack mg eg) = mg := by
+  unfold midgame pack; omega
+
+theorem endgame_pack (mg eg : Int) (h1 : -32768 ≤ mg) (h2 : mg ≤ 32767) : endgame (pack mg eg) = eg := by
+  unfold endgame pack; omega
+
+/-- both blend weights are non-negative and sum to 24, whatever the phase -/
+theorem weights_nonneg (phase : Int) (h : 0 ≤ phase) :
+    0 ≤ min phase Gen.phaseCountMax ∧ 0 ≤ Gen.phaseCountMax - min phase Gen.phaseCountMax ∧
+    min phase Gen.phaseCountMax + (Gen.phaseCountMax - min phase Gen.phaseCountMax) = 24 := by
+  rw [phaseCountMax_eq]; omega
+
+theorem tdiv24_between (lo hi x : Int) (h1 : lo * 24 ≤ x) (h2 : x ≤ hi * 24) :
+    lo ≤ Int.tdiv x 24 ∧ Int.tdiv x 24 ≤ hi := by
+  by_cases hx : 0 ≤ x
+  · rw [Int.tdiv_eq_ediv_of_nonneg hx]; omega
+  · have hn : 0 ≤ -x := by omega
+    have e : Int.tdiv x 24 = -((-x) / 24) := by
+      have := Int.neg_tdiv (-x) 24
+      rw [Int.neg_neg] at this
+      rw [this, Int.tdiv_eq_ediv_of_nonneg hn]
+    rw [e]; omega
+
+theorem weighted_between (a b w : Int) (hw0 : 0 ≤ w) (hw : w ≤ 24) :
+    min a b * 24 ≤ a * w + b * (24 - w) ∧ a * w + b * (24 - w) ≤ max a b * 24 := by
+  have hc : w = 0 ∨ w = 1 ∨ w = 2 ∨ w = 3 ∨ w = 4 ∨ w = 5 ∨ w = 6 ∨ w = 7 ∨ w = 8 ∨ w = 9 ∨ w = 10 ∨ w = 11 ∨
+      w = 12 ∨ w = 13 ∨ w = 14 ∨ w = 15 ∨ w = 16 ∨ w = 17 ∨ w = 18 ∨ w = 19 ∨ w = 20 ∨ w = 21 ∨ w = 22 ∨
+      w = 23 ∨ w = 24 := by omega
+  rcases hc with h | h | h | h | h | h | h | h | h | h | h | h | h | h | h | h | h | h | h | h | h | h | h | h | h <;>
+    (subst h; omega)
+
+/-- **blend_between**: the blend of a representable pair lies between its two components -/
+theorem blend_between (mg eg phase v : Int) (hmg : -32768 ≤ mg ∧ mg ≤ 32767) (hph : 0 ≤ phase)
+    (h : forPhase (pack mg eg) phase = some v) : min mg eg ≤ v ∧ v ≤ max mg eg := by
+  unfold forPhase at h
+  rw [midgame_pack mg eg hmg.1 hmg.2, endgame_pack mg eg hmg.1 hmg.2, phaseCountMax_eq] at h
+  simp only at h
+  split at h
+  · cases h
+    have hw := weighted_between mg eg (min phase 24) (by omega) (by omega)
+    exact tdiv24_between _ _ _ hw.1 hw.2
+  · cases h
+
+/-- **blend_total**: no `i16::try_from(..).unwrap()` panic for `i16` components -/
+theorem blend_total (mg eg phase : Int) (hmg : -32768 ≤ mg ∧ mg ≤ 32767) (heg : -32768 ≤ eg ∧ eg ≤ 32767)
+    (hph : 0 ≤ phase) : ∃ v, forPhase (pack mg eg) phase = some v := by
+  unfold forPhase
+  rw [midgame_pack mg eg hmg.1 hmg.2, endgame_pack mg eg hmg.1 hmg.2, phaseCountMax_eq]
+  simp only
+  have hw := weighted_between mg eg (min phase 24) (by omega) (by omega)
+  have hb := tdiv24_between _ _ _ hw.1 hw.2
+  have : inI16 (Int.tdiv (mg * min phase 24 + eg * (24 - min phase 24)) 24) = true := by
+    unfold inI16
+    simp only [Bool.and_eq_true, decide_eq_true_eq]
+    omega
+  rw [if_pos this]
+  exact ⟨_, rfl⟩
+
+/-- colour symmetry of the piece-square tables (material included), regenerated constants -/
+theorem pst_mirror : ∀ k ∈ PieceKind.all, ∀ s : Sq, pst .black k (Sq.flip s) = -(pst .white k s) := by
+  decide +kernel
+
+theorem passed_pst_mirror : ∀ s : Sq, passedPst .black (Sq.flip s) = -(passedPst .white s) := by
+  decide +kernel
+
+theorem passed_mask_mirror : ∀ s : Sq, passedMask .black (Sq.flip s) = BB.flipV (passedMask .white s) := by
+  decide +kernel
+
+/-- full statements that remain carried by the oracle stream only (not proved) -/
+def eval_bounded_full : Prop :=
+  ∀ g : Game, Rules.legalPos ⟨g.board.squares, g.player, g.rights, g.ep, g.halfmove, g.plies⟩ = true →
+    g.inc = Game.incInit theCfg g.board → ∃ v, Eval.eval g = some v ∧ -31900 < v ∧ v < 31900
+
+/-- non-vacuity: a concrete blend -/
+example : forPhase (pack 100 200) 20 = some 116 := by decide
+
 end Tcheran.Props.C16
-#print axioms Tcheran.Props.C16.placeholder
+#print axioms Tcheran.Props.C16.midgame_pack
+#print axioms Tcheran.Props.C16.endgame_pack
+#print axioms Tcheran.Props.C16.weights_nonneg
+#print axioms Tcheran.Props.C16.tdiv24_between
+#print axioms Tcheran.Props.C16.weighted_between
+#print axioms Tcheran.Props.C16.blend_between
+#print axioms Tcheran.Props.C16.blend_total
+#print axioms Tcheran.Props.C16.pst_mirror
+#print axioms Tcheran.Props.C16.passed_pst_mirror
+#print axioms Tcheran.Props.C16.passed_mask_mirror
+#print axioms Tcheran.Props.C16.phaseCountMax_eq
